@@ -814,7 +814,7 @@ func enumValCases(thorough bool, yield func(valCase) bool) {
 
 	// family A: one field, every type of depth <= 2, every modifier
 	for _, x := range all {
-		for _, m := range []fieldMod{{"F0", ""}, {"F0", "a"}, {"f0", ""}, {"F0", "-"}} {
+		for _, m := range []fieldMod{{"F0", ""}, {"F0", "a"}, {"f0", ""}, {"F0", "-"}, {"F0", "-,"}} {
 			if !emit(fdesc{N: m.name, Tag: m.tag, T: x}) {
 				return
 			}
@@ -848,7 +848,7 @@ func enumValCases(thorough bool, yield func(valCase) bool) {
 	}
 	mods := func(i int) []fieldMod {
 		up, lo := fmt.Sprintf("F%d", i), fmt.Sprintf("f%d", i)
-		return []fieldMod{{up, ""}, {up, "a"}, {up, "b"}, {lo, ""}, {up, "-"}}
+		return []fieldMod{{up, ""}, {up, "a"}, {up, "b"}, {lo, ""}, {up, "-"}, {up, "-,"}}
 	}
 	for _, x0 := range small {
 		for _, m0 := range mods(0) {
@@ -869,7 +869,7 @@ func enumValCases(thorough bool, yield func(valCase) bool) {
 	badKinds := []tdesc{{K: "ptr", E: &pint}, {K: "iface"}, {K: "chan"}, {K: "func"}, leaf("complex128"),
 		{K: "map", MK: "bool", E: &pint}, {K: "map", MK: "float64", E: &pint}}
 	for _, x := range append(append([]tdesc{}, badKinds...), wrap(badKinds, false)...) {
-		for _, m := range []fieldMod{{"F0", ""}, {"F0", "-"}} {
+		for _, m := range []fieldMod{{"F0", ""}, {"F0", "-"}, {"F0", "-,"}} {
 			if !emit(fdesc{N: m.name, Tag: m.tag, T: x}) || !emit(fdesc{N: "N", T: leaf("int")}, fdesc{N: m.name, Tag: m.tag, T: x}) {
 				return
 			}
@@ -902,8 +902,8 @@ func init() {
 		ID:    "C43",
 		Level: "exploration",
 		Rule: "every struct type of four reflect.StructOf families over leaves {bool,int,uint8,float64,string} (thorough: all 14 integer/float/bool/string kinds) and constructors {[]T,[2]T,map[K]T (K string,int; thorough 10 key kinds),struct{A T},struct{A T; b T},struct{b T}} applied up to depth 2: " +
-			"(A) one field of every such type x {exported, tagged, unexported, json:\"-\"}; (B) that field (exported or tagged \"a\") plus one companion of {exported int, unexported int, string with the same tag \"a\", json:\"-\" pointer}; " +
-			"(C) three fields over a 6-type (thorough 9) alphabet x {exported, tag a, tag b, unexported, json:\"-\"}^3; (D) pointer/interface/chan/func/complex/bad-map-key fields at depth 0..1, exported or json:\"-\"; plus a hand-written catalogue of 22 types (custom marshal pairs, marshal-only, pointer-receiver pairs, unexported-only at every nesting, embedded, shadowed, named map types with custom JSON). " +
+			"(A) one field of every such type x {exported, tagged, unexported, json:\"-\", json:\"-,\" (which encoding/json writes under the key \"-\": not an opt-out)}; (B) that field (exported or tagged \"a\") plus one companion of {exported int, unexported int, string with the same tag \"a\", json:\"-\" pointer}; " +
+			"(C) three fields over a 6-type (thorough 9) alphabet x {exported, tag a, tag b, unexported, json:\"-\", json:\"-,\"}^3; (D) pointer/interface/chan/func/complex/bad-map-key fields at depth 0..1, exported or json:\"-\"; plus a hand-written catalogue of 22 types (custom marshal pairs, marshal-only, pointer-receiver pairs, unexported-only at every nesting, embedded, shadowed, named map types with custom JSON). " +
 			"Per type: ValidateSpec and ValidateState are called; if either accepts, every value of the type's lattice (zero, all-fields variant 1, all-fields variant 2, each field alone at each of its variants, recursively) goes through json.Marshal/Unmarshal (catalogue: also through a real modeling.Component SaveCheckpoint/LoadCheckpoint, and Builder.Build must agree with ValidateState) and must come back DeepEqual; types containing an unexported-only struct without custom JSON must be rejected. Each type is a distinct case.",
 		Sharded:     true,
 		MinOutcomes: 12,
